@@ -321,6 +321,11 @@ fn judge(r: &Reference, act: &[(String, EntryData)], skip_class_content: bool, s
                     let mut expd = (**exp).clone();
                     let t = tolerate(orig, &mut expd, &actual, &r.rho);
                     st.probe_n("tolerated_alternative", t);
+                    // a far conditional jump is legitimately re-written through an inverted-condition trampoline
+                    // (C02): both sides are compared with trampolines folded
+                    let mut actual = actual;
+                    let folds = crate::c02::fold_all(&mut expd) + crate::c02::fold_all(&mut actual);
+                    st.probe_n("trampolines_folded", folds);
                     let diffs = all_diffs(&expd, &actual);
                     if diffs.is_empty() {
                         st.probe("class_exact_match");
@@ -328,7 +333,12 @@ fn judge(r: &Reference, act: &[(String, EntryData)], skip_class_content: bool, s
                     }
                     // what duke's reader + writer lose on this class without any renaming (owned by C01/C02)
                     let base: BTreeSet<String> = match duke_roundtrip(in_bytes).and_then(|rt| refclass::parse(&rt).ok()) {
-                        Some(rt) => all_diffs(orig, &rt).into_iter().map(|x| x.0).collect(),
+                        Some(mut rt) => {
+                            let mut o = (**orig).clone();
+                            crate::c02::fold_all(&mut o);
+                            crate::c02::fold_all(&mut rt);
+                            all_diffs(&o, &rt).into_iter().map(|x| x.0).collect()
+                        }
                         None => BTreeSet::new(),
                     };
                     for (p, d) in diffs {
@@ -709,14 +719,28 @@ impl Engine for C07 {
                     "empty" => vec![],
                     "META-INF/MANIFEST.MF" => b"Manifest-Version: 1.0\r\nMain-Class: a.Main\r\n\r\n".to_vec(),
                     _ => {
-                        let len = if w.chance(10) { w.range(5000, 20000) } else { w.below(200) };
+                        // now and then an entry the deflate encoder cannot take in one piece (missed seeded change C07-6)
+                        let len = if w.chance(4) { w.range(70_000, 260_000) } else if w.chance(10) { w.range(5000, 20000) } else { w.below(200) };
                         (0..len).map(|_| w.below(256) as u8).collect()
                     }
                 };
                 others.push(PEntry { name: n.into(), dir: false, data });
             }
         }
-        let classes: Vec<PEntry> = wl.classes.into_iter().map(|(name, data)| PEntry { name, dir: false, data }).collect();
+        let mut classes: Vec<PEntry> = wl.classes.into_iter().map(|(name, data)| PEntry { name, dir: false, data }).collect();
+        // rarely one method at the 16-bit jump limit (the writer's retry loop runs): missed seeded change C07-4
+        if w.chance(if tier == Tier::Thorough { 4 } else { 2 }) {
+            let mut b = w.split("big-jump");
+            let kinds = refclass::gen::BigJumpKind::ALL;
+            let kind = kinds[b.usize(kinds.len())];
+            let bj = refclass::gen::gen_big_jump_method(&mut b, kind);
+            if let Ok(e) = refclass::encode(&bj.sem, &refclass::Layout::default()) {
+                let name = format!("{}.class", jname(&bj.sem.this_class));
+                if !classes.iter().any(|c| c.name == name) {
+                    classes.push(PEntry { name, dir: false, data: e.bytes });
+                }
+            }
+        }
         if w.chance(70) {
             // the usual shape: directories and resources first
             entries.extend(others);
@@ -833,6 +857,9 @@ impl Engine for C07 {
                             }
                             if n.starts_with("corp/") {
                                 st.probe("class.corpus");
+                            }
+                            if b.len() > 30_000 {
+                                st.probe("class.big_jump");
                             }
                         }
                         Err(e) => {
@@ -1095,6 +1122,7 @@ impl Engine for C07 {
             "class.with_frames",
             "class.with_local_vars",
             "class.corpus",
+            "class.big_jump",
             "class_exact_match",
             "jar.non_class_entries",
             "jar.dirs",
